@@ -46,7 +46,7 @@ pub const SCHEMA_VARIANT: &str = r#"
 entity Group in [Group];
 entity User in [Group] = { level: Long, active: Bool, manager?: User, friends: Set<User>, home?: Folder };
 entity Folder in [Folder] = { admin?: User, depth: Long };
-entity Doc in [Folder] = { owner: User, readers: Set<User>, parent?: Doc, public: Bool } tags String;
+entity Doc in [Folder] = { owner: User, readers: Set<User>, parent?: Doc, public: Bool, team?: Group } tags String;
 action view, edit appliesTo { principal: [User], resource: [Doc], context: { via?: User, n: Long, docs?: Set<Doc> } };
 action browse appliesTo { principal: [User], resource: [Folder], context: { via?: User, n: Long, docs?: Set<Doc> } };
 action admin appliesTo { principal: [User], resource: [Folder, Doc], context: { n: Long } };
